@@ -20,6 +20,7 @@ Requests
   compile <fuel> <Re>               ok <tables> <accepts> <error> | err <Exc>
   acceptsmany <fuel> <Re> <n> <alphabet>    ok <bits>   (1 accept, 0 reject, R exception while running)
   scanmany <fuel> <Re> <n> <alphabet>       ok <result> <result> …    result = tok;tok;…!<end>, tok = a.b.c (code points)
+  auto <fuel> <Re> <n> <alphabet>           ok <compile reply> | <acceptsmany reply> | <scanmany reply>   (one compile)
   scanvec <fuel> <Re>;<Re>;… <text>         ok name:tok;…!<end>
   specmany <Syn> <n> <alphabet>     ok <bits>   Spec.Lang.matchB on the standard meaning of the tree
   smart O|A|C <Re> <Re>             ok <Re>     logical_or / logical_and / concatenate
@@ -205,6 +206,19 @@ def step (line : String) : String :=
           | .ok d => "ok " ++ " ".intercalate ((allStrings al n).map fun s =>
               let res := scan d s
               ";".intercalate (res.1.map showTok) ++ "!" ++ res.2.name)
+          | .error e => showErr e)
+      | _, _, _, _ => "bad-op"
+  | ["auto", f, r, n, al] => match nat? f, re? r, nat? n, intList? al with
+      | some f, some r, some n, some al => (match compileB f r with
+          | .ok d =>
+              let ss := allStrings al n
+              "ok " ++ showDFA d ++ " | " ++ String.ofList (ss.map fun s =>
+                match accepts d s with
+                | .ok true => '1'
+                | .ok false => '0'
+                | .error _ => 'R') ++ " | " ++ " ".intercalate (ss.map fun s =>
+                let res := scan d s
+                ";".intercalate (res.1.map showTok) ++ "!" ++ res.2.name)
           | .error e => showErr e)
       | _, _, _, _ => "bad-op"
   | ["scanvec", f, rs, t] => match nat? f, (splitSemi rs).mapM re?, intList? t with
